@@ -5,7 +5,8 @@ import itertools
 from hypothesis import strategies as st
 
 from ..campaign import Result
-from ..structural import SJob, SSched, SPure, closure, quiet, STRUCT_ASSUMPTIONS
+from ..structural import (SJob, SSched, SPure, closure, quiet, STRUCT_ASSUMPTIONS,
+                          sparse_edges)
 
 ID = 'C17'
 LEVEL = 'exploration'
@@ -32,7 +33,29 @@ def budget(tier):
 
 
 @st.composite
+def big_case(draw):
+    """a wide graph (300 nodes, one of them with > 256 links on each side) or a deep one (a
+    chain of 1100 jobs, longer than the interpreter's recursion limit)"""
+    seed = draw(st.integers(1, 2 ** 16))
+    if draw(st.booleans()):
+        n = 300
+        edges = sparse_edges(n, seed)
+    else:
+        n = 1100
+        edges = [[i, i + 1] for i in range(n - 1)] + [[i, i + 2] for i in range(0, n - 2, 97)]
+    starts = sorted({seed % n, (seed * 7) % n, 0})[:draw(st.integers(1, 3))]
+    return dict(n=n, edges=edges, outsiders=0, out_edges=[], starts=starts,
+                forever=[(i * 13 + seed) % 11 == 0 for i in range(n)],
+                hkeys=[(i * 7 + seed) % 16 for i in range(n)],
+                order=sorted(range(n), key=lambda i: (i * 7919 + seed) % 1009),
+                top=draw(st.sampled_from(['pure', 'nestable'])), program=[], tree=None,
+                ran=False)
+
+
+@st.composite
 def cases(draw):
+    if draw(st.integers(0, 199)) == 0:
+        return draw(big_case())
     n = draw(st.integers(1, 12))
     density = draw(st.sampled_from([10, 25, 45]))
     edges = [[a, b] for b in range(n) for a in range(b) if draw(st.integers(0, 99)) < density]
